@@ -348,6 +348,20 @@ example :
     dimFollow ⟨⟨0, []⟩, .inl ⟨[2], none, []⟩, ⟨1, none, .phys 0, [80, 84], false⟩⟩ [.cs [114] false] = true := by
   decide +kernel
 
+/-- **`\ifdim` compares the values themselves, in whatever unit.**  For integers `a`, `b` and any positive rational unit `u`
+    (1 sp, or 0.65536 sp = 0.00001pt, …) the verdict on `u·a`, `u·b` as exact rationals is the verdict on `a`, `b`:
+    differences below one scaled point count, nothing is truncated or rounded before the comparison.  (This is what lets the
+    document stream spell the model's integer dimensions in units of 0.00001pt.) -/
+theorem ifdim_scale_invariant (c : Nat) (u : Rat) (a b : Int) (hu : 0 < u) :
+    relVerdict c (u * (a : Rat)) (u * (b : Rat)) = relVerdict c a b := by
+  rw [relVerdict_scale c u _ _ hu]
+  simp only [relVerdict, Rat.intCast_lt_intCast, Rat.intCast_inj]
+
+/-- non-vacuity: `0.00001pt > 0pt` (0.65536 sp against 0) is true, `1.5pt = 1.50001pt` is false -/
+example : relVerdict 62 ((65536 : Rat) / 100000 * ((1 : Int) : Rat)) ((65536 : Rat) / 100000 * ((0 : Int) : Rat)) = true ∧
+    relVerdict 61 ((65536 : Rat) / 100000 * ((150000 : Int) : Rat)) ((65536 : Rat) / 100000 * ((150001 : Int) : Rat)) = false := by
+  constructor <;> rw [ifdim_scale_invariant _ _ _ _ (by decide +kernel)] <;> decide
+
 /-! ### recognition of the scanned tokens -/
 
 /-- every control sequence whose name starts with `if` opens a level for the scanner: the listed primitives, every
